@@ -540,6 +540,8 @@ class Model:
 
 
 def _sane(v):
+    if type(v).__module__ == "numpy" and getattr(v, "shape", ()) != ():
+        return False          # numpy broadcast a scalar over a tuple somewhere: arrays are not what these workloads are about
     if isinstance(v, bool):
         return True
     if isinstance(v, int):
